@@ -106,15 +106,18 @@ class XmlContext:
         if len(sys.modules) == self.sys_modules:
             return
 
-        self.xsi_cache.clear()
+        # Build the new index aside and publish it with one assignment, other
+        # threads must never see it cleared or half filled.
+        index: dict[str, list[type]] = defaultdict(list)
         builder = self.get_builder()
         for clazz in self.get_subclasses(object):
             if self.is_binding_model(clazz):
                 meta = builder.build_class_meta(clazz)
 
                 if meta.target_qname:
-                    self.xsi_cache[meta.target_qname].append(clazz)
+                    index[meta.target_qname].append(clazz)
 
+        self.xsi_cache = index
         self.sys_modules = len(sys.modules)
 
     def is_binding_model(self, clazz: type[T]) -> bool:
